@@ -6,9 +6,12 @@
      (5 (byte ...))                   utf8_dec alone
      (6 (s ...) (label ...) (mask ...)) as 2, only the observations with mask <> 0
      (7 (s ...) (elabel ...))         replay at the granularity of the loader's single event.set() calls
-     (8 (s ...) maxc fuel) / (9 (s ...) maxc (choice ...))   enumerate / walk such schedules *)
+     (8 (s ...) maxc fuel) / (9 (s ...) maxc (choice ...))   enumerate / walk such schedules
+     (10 (s ...) (glabel ...))        replay at thread-switch granularity (Model/C13_ThreadedFine.v)
+     (12 (s ...) (pool ...) (opool ...) maxc fuel) / (13 (s ...) (pool ...) (opool ...) maxc (choice ...))  enumerate / walk
+     (14 (s ...) (glabel ...) fuel)   the schedule extended by a fair completion *)
 From Coq Require Import ZArith List Bool.
-From PTK Require Import Lib.Sx Lib.Py Model.C13_Utf8 Model.C13_HistFile Model.C13_Threaded Model.C13_ThreadedLate Model.C13_ThreadedEv.
+From PTK Require Import Lib.Sx Lib.Py Model.C13_Utf8 Model.C13_HistFile Model.C13_Threaded Model.C13_ThreadedLate Model.C13_ThreadedEv Model.C13_ThreadedFine.
 Import ListNotations.
 Open Scope Z_scope.
 
@@ -21,6 +24,10 @@ Definition run_C13 (c : sx) : sx :=
   | L [A 7; s0; L labels] => run_ev s0 labels
   | L [A 8; s0; A maxc; A fuel] => run_eenum s0 maxc fuel
   | L [A 9; s0; A maxc; ch] => run_ewalk s0 maxc ch
+  | L [A 10; s0; L labels] => run_fine s0 labels
+  | L [A 14; s0; L labels; A fuel] => run_gfinish s0 labels fuel
+  | L [A 12; s0; pool; opool; A maxc; A fuel] => run_genum s0 pool opool maxc fuel
+  | L [A 13; s0; pool; opool; A maxc; ch] => run_gwalk s0 pool opool maxc ch
   | L [A 6; s0; L labels; mask] => run_threaded_masked s0 labels mask
   | L [A 5; b] => match as_str b with Some b' => sx_str (utf8_dec b') | None => bad_case end
   | _ => bad_case
